@@ -31,8 +31,59 @@ def unesc(s):
             out.append(b[i]); i += 1
     return out.decode('utf-8')
 
+# ---- exotic mode: the implementation runs with names (and filtration indices) of unusual but legal
+# Python types, in bijection with the plain names of the script; tokens are translated at this
+# boundary both ways, so the script, its outputs and the model's run stay those of the plain names.
+class Obj:
+    """a user-defined hashable value (equality and hash by label, so that copy.deepcopy of a complex
+    yields equal names)"""
+    __slots__ = ('label',)
+    def __init__(self, label): self.label = label
+    def __repr__(self): return 'Obj(%r)' % (self.label,)
+    def __eq__(self, o): return type(o) is Obj and type(o.label) is type(self.label) and o.label == self.label
+    def __ne__(self, o): return not self.__eq__(o)
+    def __hash__(self): return hash(('Obj', self.label))
+
+_EXO = {'mode': None, 'fwd': {}, 'inv': {}, 'imode': None}
+
+def exotic_reset(mode=None, imode=None):
+    _EXO['mode'] = mode; _EXO['imode'] = imode; _EXO['fwd'] = {}; _EXO['inv'] = {}
+
+def _exo_atom(x):
+    """plain atom (int / str / float) -> the exotic value standing for it in this script"""
+    m = _EXO['mode']
+    if m is None:
+        return x
+    key = (type(x).__name__, x)
+    if key in _EXO['fwd']:
+        return _EXO['fwd'][key]
+    if m == 'frozenset':
+        y = frozenset([x]) if not (type(x) is str and x == '') else frozenset()
+    elif m == 'obj':
+        y = Obj(x)
+    elif m == 'bytes':
+        import fractions
+        if type(x) is str: y = x.encode('utf-8')
+        elif type(x) is int: y = complex(x, 1)
+        else: y = fractions.Fraction(x) + fractions.Fraction(1, 3)
+    else:
+        raise ValueError('exotic mode ' + m)
+    _EXO['fwd'][key] = y; _EXO['inv'][y] = x
+    return y
+
+def _exo_back(n):
+    if _EXO['mode'] is None:
+        return n, False
+    try:
+        if n in _EXO['inv'] and type(n) not in (int, str, float, tuple):
+            return _EXO['inv'][n], True
+    except TypeError:
+        pass
+    return n, False
+
 def tok(n):
     """Python value -> name token, keeping its exact type visible."""
+    n, _ = _exo_back(n)
     t = type(n)
     if t is int:
         return 'i%d' % n
@@ -50,6 +101,9 @@ def tok(n):
         return '(' + ','.join(tok(x) for x in n) + ')'
     return '?%s:%s' % (t.__module__ + '.' + t.__name__, esc(repr(n)))
 
+import re as _re_
+_AUTO_NAME = _re_.compile(r'^\d+d\d+$')
+
 def parse_name(s):
     x, j = _parse_name_at(s, 0)
     if j != len(s):
@@ -64,12 +118,13 @@ def _parse_name_at(s, i):
         return k
     c = s[i]
     if c == 'i':
-        k = until(i + 1); return int(s[i + 1:k]), k
+        k = until(i + 1); return _exo_atom(int(s[i + 1:k])), k
     if c == 's':
-        k = until(i + 1); return unesc(s[i + 1:k]), k
+        k = until(i + 1); v = unesc(s[i + 1:k])
+        return (v if _AUTO_NAME.match(v) else _exo_atom(v)), k      # library-generated names stay what they are
     if c == 'f':
         k = until(i + 1); body = s[i + 1:k]; e = body.index('e')
-        return math.ldexp(float(int(body[:e])), int(body[e + 1:])), k
+        return _exo_atom(math.ldexp(float(int(body[:e])), int(body[e + 1:]))), k
     if c == '(':
         if s[i + 1] == ')':
             return (), i + 2
@@ -85,6 +140,13 @@ def _parse_name_at(s, i):
     raise ValueError('bad name ' + s)
 
 def idx_tok(x):
+    im = _EXO['imode']
+    if im == 'tuple' and type(x) is tuple and len(x) == 2:
+        x = x[0]
+    elif im == 'fraction':
+        import fractions
+        if isinstance(x, fractions.Fraction):
+            x = float(x) if x.denominator != 1 else int(x)
     y = x * 4
     if isinstance(y, (int, float)) and y == int(y):
         return 'q%d' % int(y)
@@ -92,7 +154,14 @@ def idx_tok(x):
 
 def parse_idx(t):
     n = int(t[1:])
-    return n // 4 if n % 4 == 0 else n / 4
+    v = n // 4 if n % 4 == 0 else n / 4
+    im = _EXO['imode']
+    if im == 'tuple':
+        return (v, 0)
+    if im == 'fraction':
+        import fractions
+        return fractions.Fraction(n, 4)
+    return v
 
 def aval_tok(v):
     if type(v) is int:
@@ -182,6 +251,7 @@ class ImplWorld:
         self.reset()
 
     def reset(self):
+        exotic_reset()
         self.ostate = {}     # scratch state of the oracles
         self.last_line = ''; self.last_out = ''
         self.vars = {}
@@ -221,10 +291,10 @@ class ImplWorld:
             l = T.names(); return {l[i]: l[i + 1] for i in range(0, len(l), 2)}, calls
         if kw == 'tup':
             z = T.int()
-            def f(s): calls.append(s); return (s, z)
+            def f(s): calls.append(s); return (s, _exo_atom(z))
         elif kw == 'count':
             b = T.int()
-            def f(s): calls.append(s); return b + len(calls) - 1
+            def f(s): calls.append(s); return _exo_atom(b + len(calls) - 1)
         elif kw == 'prefix':
             p = T.str()
             def f(s): calls.append(s); return p + str(s)
@@ -245,6 +315,10 @@ class ImplWorld:
             self.reset(); return line, ['ok reset']
         if kw == 'echo':
             return line, [line]
+        if kw == 'exotic':
+            # exotic <name mode|-> <index mode|->: from here on the implementation sees exotic names / indices
+            exotic_reset(None if toks[1] == '-' else toks[1], None if len(toks) < 3 or toks[2] == '-' else toks[2])
+            return 'echo ' + line, ['echo ' + line]
         if kw == 'snap':
             return line, self.snapshot(toks[1])
         if kw == 'ids':
